@@ -303,18 +303,22 @@ func Delay[T any](duration time.Duration) func(Observable[T]) Observable[T] {
 			queue := []lo.Tuple2[context.Context, Notification[T]]{}
 
 			consume := func() {
+				verifPoint("operator_utility:Delay:lock#0", nil)
 				muQueue.Lock()
 
 				if len(queue) == 0 {
 					muQueue.Unlock()
+					verifPoint("operator_utility:Delay:unlocked#0", nil)
 					return
 				}
 
 				first := queue[0]
 				queue = queue[1:]
 
+				verifPoint("operator_utility:Delay:lock#1", nil)
 				muNext.Lock()
 				muQueue.Unlock()
+				verifPoint("operator_utility:Delay:unlocked#1", nil)
 
 				_ = processNotificationWithObserverAndContext(
 					first.A,
@@ -323,14 +327,17 @@ func Delay[T any](duration time.Duration) func(Observable[T]) Observable[T] {
 				)
 
 				muNext.Unlock()
+				verifPoint("operator_utility:Delay:unlocked#2", nil)
 			}
 
 			produce := func(ctx context.Context, notif Notification[T]) {
+				verifPoint("operator_utility:Delay:lock#2", nil)
 				muQueue.Lock()
 
 				queue = append(queue, lo.T2(ctx, notif))
 
 				muQueue.Unlock()
+				verifPoint("operator_utility:Delay:unlocked#3", nil)
 
 				time.AfterFunc(
 					duration,
@@ -356,11 +363,13 @@ func Delay[T any](duration time.Duration) func(Observable[T]) Observable[T] {
 			return func() {
 				sub.Unsubscribe()
 
+				verifPoint("operator_utility:Delay:lock#3", nil)
 				muQueue.Lock()
 
 				queue = []lo.Tuple2[context.Context, Notification[T]]{}
 
 				muQueue.Unlock()
+				verifPoint("operator_utility:Delay:unlocked#4", nil)
 			}
 		})
 	}
